@@ -56,7 +56,7 @@ def run(ck):
 
     # ------------------------------------------------------------------ A. cast_string vs the Lean model
     strings = list(SEEDS)
-    for _ in range(3000 if thorough else 500):
+    for _ in range(ck.n(500, 3000)):
         n = rng.choice([1, 1, 2, 3, 4, 6, 9])
         base = rng.choice(SEEDS) if rng.random() < 0.4 else ""
         s = base + "".join(rng.choice(ALPHA) for _ in range(n))
@@ -88,7 +88,7 @@ def run(ck):
 
     # ------------------------------------------------------------------ B. full round trips
     tmpdir = tempfile.mkdtemp(prefix="pgv-c07-")
-    n = 400 if thorough else 70
+    n = ck.n(70, 400)
     try:
         for i in range(n):
             c = isogen.content(rng, domain="text")
